@@ -139,6 +139,7 @@ Definition train_shape_ok (i : imp) (is_partial : bool) (ds : list A) (cx : opti
   | IClu s => (if is_partial then width_ok (k_cx s) (octx cx) && Nat.leb (k_n s) (length (k_cx s) + length ds)
                else Nat.leb (k_n s) (length ds))
   | ITree s => if is_partial then match t_nf s, octx cx with Some d, _ :: _ => Nat.eqb d (ncols (octx cx)) | _, _ => true end else true
+  | ILin s => if is_partial then match l_nf s, octx cx with Some d, _ :: _ => Nat.eqb d (ncols (octx cx)) | _, _ => true end else true
   | _ => true
   end.
 
